@@ -979,11 +979,36 @@ class SStr:
             out.extend(x.chars)
         return mk(out)
 
-    def encode(self, *a):
-        raise Unsupported('encode')
+    def encode(self, encoding='utf-8', errors='strict'):
+        if encoding.lower().replace('-', '') not in ('utf8', 'ascii'):
+            raise Unsupported('encode ' + encoding)
+        lim = 128 if encoding.lower() == 'ascii' else None
+        bad = []
+        for c in self.chars:
+            if isinstance(c, int):
+                if 0xd800 <= c <= 0xdfff or (lim and c >= lim):
+                    raise UnicodeEncodeError(encoding, chr(c), 0, 1, 'not encodable')
+            else:
+                bad.append(z3.And(c >= 0xd800, c <= 0xdfff) if lim is None else c >= lim)
+        if bad and fork(z3.Or(bad), prefer=False):
+            raise UnicodeEncodeError(encoding, 'x', 0, 1, 'not encodable (symbolic character)')
+        return EncodedStr(self)
 
     def __repr__(self):
         return 'SStr(%s)' % ''.join(chr(c) if isinstance(c, int) else '?' for c in self.chars)
+
+
+class EncodedStr:
+    """bytes obtained by encoding a symbolic string (kept as the string; only passed through / decoded again)"""
+
+    def __init__(self, s):
+        self.s = s
+
+    def decode(self, *a):
+        return self.s
+
+    def __len__(self):
+        raise Unsupported('len of encoded symbolic string')
 
 
 def mk(chars):
@@ -2014,7 +2039,7 @@ def deep_sym(x, depth=0):
     """does x contain a symbolic value (looks into tuples / lists / dicts, 3 levels)"""
     if isinstance(x, SYM_TYPES):
         return True
-    if depth < 3:
+    if depth < 6:
         if isinstance(x, (tuple, list)):
             return any(deep_sym(e, depth + 1) for e in x)
         if isinstance(x, dict):
@@ -2083,6 +2108,77 @@ def _m_import(name, *a, **k):
 
 import builtins as _builtins
 _FUNC_MODELS[_builtins.__import__] = _m_import
+
+import html as _html
+import json as _json
+
+
+def _m_html_escape(s, quote=True):
+    """html.escape: & < > (and " ' when quote) are replaced; each replacement is an exotic event of the budget K"""
+    s = force(s)
+    if isinstance(s, (SInt, SBool, SDate)):
+        raise AttributeError("'%s' object has no attribute 'replace'" % _pytype_name(s))
+    if not isinstance(s, SStr):
+        return _html.escape(s, quote)
+    table = [(38, '&amp;'), (60, '&lt;'), (62, '&gt;')] + ([(34, '&quot;'), (39, '&#x27;')] if quote else [])
+    out = []
+    for c in s.chars:
+        if isinstance(c, int):
+            out.extend(ord(x) for x in _html.escape(chr(c), quote))
+            continue
+        special = z3.Or([c == k for k, _ in table])
+        if xfork(special, 'html-escape'):
+            for k, rep_ in table[:-1]:
+                if fork(c == k):
+                    out.extend(ord(x) for x in rep_)
+                    break
+            else:
+                out.extend(ord(x) for x in table[-1][1])
+        else:
+            out.append(c)
+    return mk(out)
+
+
+_FUNC_MODELS[_html.escape] = _m_html_escape
+
+
+class JsonText:
+    """result of json.dumps on a tree with symbolic leaves: only checked for serialisability, then passed through"""
+
+    def __init__(self, tree):
+        self.tree = tree
+
+    def encode(self, *a):
+        return EncodedStr(self)
+
+
+def _json_check(v, depth=0):
+    v = force(v)
+    if v is None or isinstance(v, (bool, int, float, str, SStr, SInt, SBool)):
+        return
+    if isinstance(v, (list, tuple)):
+        for e in v:
+            _json_check(e, depth + 1)
+        return
+    if isinstance(v, dict):
+        for k, e in v.items():
+            if not isinstance(force(k), (str, SStr, int, float, bool, SInt)) and k is not None:
+                raise TypeError('keys must be str, int, float, bool or None, not %s' % type(k).__name__)
+            _json_check(e, depth + 1)
+        return
+    raise TypeError('Object of type %s is not JSON serializable' % _pytype_name(v))
+
+
+def _m_json_dumps(obj, **kw):
+    if not deep_sym(obj):
+        return _json.dumps(obj, **kw)
+    _json_check(obj)
+    if kw.get('sort_keys') and isinstance(obj, (list, dict)):
+        pass     # keys of the result dictionaries are concrete strings in the application
+    return JsonText(obj)
+
+
+_FUNC_MODELS[_json.dumps] = _m_json_dumps
 
 
 class LazySel:
@@ -2599,6 +2695,35 @@ class SDate:
     def date(self):
         return self
 
+    def strftime(self, fmt):
+        out = []
+        i = 0
+        while i < len(fmt):
+            ch = fmt[i]
+            if ch != '%':
+                out.append(ord(ch))
+                i += 1
+                continue
+            code = fmt[i + 1]
+            i += 2
+            if code == 'Y':
+                # CPython (glibc) does not zero-pad years below 1000
+                width = [(self.y >= 1000, 4), (self.y >= 100, 3), (self.y >= 10, 2)]
+                n = 1
+                for cond, w in width:
+                    if fork(cond):
+                        n = w
+                        break
+                out.extend(48 + (self.y / (10 ** (n - 1 - k))) % 10 for k in range(n))
+            elif code in 'mdy':
+                v = {'m': self.m, 'd': self.d, 'y': self.y % 100}[code]
+                out.extend([48 + (v / 10) % 10, 48 + v % 10])
+            elif code == '%':
+                out.append(37)
+            else:
+                raise Unsupported('strftime %' + code)
+        return mk(out)
+
     def _key(self):
         return self.y * 10000 + self.m * 100 + self.d
 
@@ -2644,7 +2769,25 @@ class LazyBigInt:
 
 
 def fmt_percent(fmt, arg):
-    # support simple formats: %s, %d, %02d, %r-less; single arg or tuple
+    # support simple formats: %s, %d, %02d, %(name)s; single arg, tuple or dict
+    if isinstance(arg, dict) and '%(' in fmt:
+        pieces = real_re.split(r'%\((\w+)\)s', fmt)
+        out = []
+        for k, piece in enumerate(pieces):
+            if k % 2 == 0:
+                if '%' in piece.replace('%%', ''):
+                    raise Unsupported('fmt %r' % fmt[:40])
+                out.extend(ord(c) for c in piece.replace('%%', '%'))
+            else:
+                v = force(arg[piece])
+                if isinstance(v, SInt):
+                    v = render_int(v)
+                if not isinstance(v, (str, SStr)):
+                    if deep_sym(v):
+                        raise Unsupported('fmt dict arg %r' % type(v))
+                    v = str(v)
+                out.extend(SStr.of(v).chars)
+        return mk(out)
     args = arg if isinstance(arg, tuple) else (arg,)
     parts = real_re.split(r'(%0?\d*[sd]|%%)', fmt)
     out = []
@@ -2711,12 +2854,21 @@ class Tx(ast.NodeTransformer):
     _depth = 0
     _ifn = 0
 
+    _globals = ()
+
     def visit_FunctionDef(self, node):
         self._depth += 1
+        saved = self._globals
+        declared = set()
+        for n in ast.walk(node):
+            if isinstance(n, (ast.Global, ast.Nonlocal)):
+                declared.update(n.names)
+        self._globals = declared
         try:
             self.generic_visit(node)
         finally:
             self._depth -= 1
+            self._globals = saved
         return node
 
     visit_AsyncFunctionDef = visit_FunctionDef
@@ -2748,7 +2900,7 @@ class Tx(ast.NodeTransformer):
 
     def visit_If(self, node):
         names = set()
-        if self._depth > 0 and node.body and self._simple_block(node.body, names) and self._simple_block(node.orelse, names) and names:
+        if self._depth > 0 and node.body and self._simple_block(node.body, names) and self._simple_block(node.orelse, names) and names and not (names & set(self._globals)):
             # if-conversion of an assignment-only `if` statement (DESIGN.md 2.4): both arms become local functions of
             # the assigned variables; __sx__.ifstmt merges their results when the test is symbolic, else runs one arm
             Tx._ifn += 1
